@@ -74,9 +74,21 @@ def prop_theorems(pid):
     thms = []
     for mod in prop_modules(pid):
         src = strip_comments(open(os.path.join(LEAN, "CmrProofs", "Props", mod + ".lean")).read())
-        ns = re.findall(r"^namespace\s+(\S+)", src, flags=re.M)
-        prefix = (ns[0] + ".") if ns else ""
-        thms += [prefix + n for n in re.findall(r"^theorem\s+(\S+)", src, flags=re.M)]
+        # fully qualified names: follow (nested) namespaces; `section … end` blocks do not contribute to names
+        stack = []
+        for line in src.split("\n"):
+            m = re.match(r"^namespace\s+(\S+)", line)
+            if m:
+                stack.append(("ns", m.group(1))); continue
+            m = re.match(r"^(?:noncomputable\s+)?section\b\s*(\S*)", line)
+            if m:
+                stack.append(("sec", m.group(1))); continue
+            m = re.match(r"^end\b\s*(\S*)", line)
+            if m and stack:
+                stack.pop(); continue
+            m = re.match(r"^theorem\s+(\S+)", line)
+            if m:
+                thms.append(".".join([n for k, n in stack if k == "ns"] + [m.group(1)]))
     return f, thms
 
 
